@@ -16,7 +16,7 @@ from vmon.libutil import monitored, xtce_element
 
 LEVEL = "exploration"
 SHARDS = {"quick": 16, "thorough": 16}
-MUST = ["bool.string_or_binary_encoded", "enum.every_raw", "enum.unlisted_negative_raw", "spline.order0", "spline.order1", "poly", "context.first-of-several", "context.none-match-default", "context.none-match-nodefault",
+MUST = ["bool.string_or_binary_encoded", "bool.empty_raw_value", "spline.large_raw_coordinates", "enum.every_raw", "enum.unlisted_negative_raw", "spline.order0", "spline.order1", "poly", "context.first-of-several", "context.none-match-default", "context.none-match-nodefault",
         "enum.listed", "enum.unlisted", "bool", "time.scaled", "query.at-last-knot", "query.at-first-knot", "query.outside-noextrap",
         "route.ctor", "route.xml", "calibrate.contract_evaluations", "enum.wide"]
 RULE = ("case = (parameter type IR, earlier parameter values, field bits, bit offset, construction route); parse_value's "
@@ -401,6 +401,36 @@ def run(ctx):
             ctx.count("bool.string_or_binary_encoded")
             ctx.sig("boolean", type(enc).__name__, si, route)
             run_case(ctx, F, t, {}, buf, rng.randrange(8), route, rng, {"kind": "boolean", "q": "string-or-binary-encoded"})
+    # an EMPTY raw value (a field of zero bits: fixed size 0, or a computed length of 0) is false
+    for si, (enc, assign) in enumerate([(ir.BinEnc(0), {}), (ir.BinEnc(ir.DynLen("LEN", False, 8, None)), {"LEN": ("int", 0, 0)}),
+                                        (ir.BinEnc(ir.DynLen("LEN", False, 8, None)), {"LEN": ("int", 2, 2)})]):
+        for route in routes:
+            item += 1
+            if not ctx.mine(item):
+                continue
+            t = ir.PType("T", "boolean", enc)
+            ctx.count("bool.empty_raw_value")
+            ctx.sig("boolean", "empty-raw", si, route)
+            run_case(ctx, F, t, assign, b"\x01\x00" if si == 2 else b"", rng.randrange(8), route, rng, {"kind": "boolean", "q": "empty-raw"})
+    # ---- 4d. first-order splines whose raw coordinates are huge compared with the segment width (a 48-bit counter, a 32-bit
+    #          time tag): interpolation at and between the points keeps the accuracy of the point values --------------------------
+    for base, widths_, bits_ in ((2.8e14, (100, 1500, 40), 64), (4.0e9, (7, 300, 2), 32), (1.0e12, (1000, 1, 5000), 48)):
+        xs = [base]
+        for w_ in widths_:
+            xs.append(xs[-1] + w_)
+        ys = [1.0, 250.0, 3.0, -77.5]
+        for order in (0, 1):
+            sp = ir.Spline(tuple(zip(xs, ys)), order, True)
+            t = ir.PType("T", "float", ir.IntEnc(bits_, "unsigned", False, sp, ()))
+            for route in routes:
+                item += 1
+                if not ctx.mine(item):
+                    continue
+                lib = F.make(t, route)
+                for q in [int(x) for x in xs] + [int(xs[0]) + 1, int(xs[1]) - 1, int(xs[1]) + 3, int(xs[2]) + 1, int(xs[3]) - 1, int(xs[3]) + 10, int(xs[0]) - 10]:
+                    ctx.count("spline.large_raw_coordinates")
+                    ctx.sig("spline", "large-coordinates", order, route)
+                    run_case(ctx, F, t, {}, q, rng.randrange(8), route, rng, {"_lib": lib, "kind": "numeric", "q": "large-coordinates"})
 
     # ---- 5. enum / bool must not depend on calibrators that cannot be evaluated for the raw value ---------------------
     bad_cals = [ir.Spline(((2.0, 1.0), (5.0, 2.0)), 0, False), ir.Spline(((2.0, 1.0), (5.0, 2.0)), 1, False),
